@@ -6,8 +6,9 @@ import (
 	"verif/harness/common"
 )
 
-// twinTypes: generic, implicit-digest-like, keyword, segment, version component types
-var twinTypes = []enc.TLNum{8, 9, 32, 50, 54}
+// twinTypes: generic, implicit-digest-like, keyword, segment, version component types, and legal types beyond one
+// byte (1..65535) that agree with a small one in their low byte(s): 264 = 8 + 256, 288 = 32 + 256, 520 = 8 + 512
+var twinTypes = []enc.TLNum{8, 9, 32, 50, 54, 8, 32, 264, 288, 520, 65535}
 
 // Twin returns a copy of n in which one component has another TLV type and the same value bytes
 // (names that differ only in a component type), occasionally also a zero byte in front of the value
